@@ -40,6 +40,8 @@ Definition ex_graph : graph := mk_graph
 
 (* the dumped dependencies of the example already cover its uses (the diagnostic the harness
    evaluates on every linker dump) *)
+Example ex_wf : wf_graphb ex_graph = true.
+Proof. vm_compute. reflexivity. Qed.
 Example ex_hyp : deps_coverb ex_graph = true.
 Proof. vm_compute. reflexivity. Qed.
 
